@@ -1,0 +1,159 @@
+//go:build verif
+
+package clustal
+
+// Contracts for the verification machinery in /verif (govc): comment-only file,
+// compiled (to nothing) only under the build tag "verif".
+//
+// Ghost state of the input: gfield(r, rem) = runes left in the bufio.Reader r
+// (assumed contract of ReadRune/UnreadRune in /verif/specs/externs.spec).
+// Progress measure of the parser: M = 2*rem + buf.n  (a token taken from the
+// one-token push-back buffer lowers it by 1, a token read from the input by >= 2).
+
+//@ pure func clrem(s *Scanner) int = gfield(s.r, rem)
+//@ pure func clsok(s *Scanner) bool = s != nil && s.r != nil && gfield(s.r, rem) >= 0
+
+// constructors: the parser starts in a state that satisfies the precondition of Parse
+//@ func NewScanner
+//@   props C03
+//@   ensures clsok(result) && fresh(result)
+//@   modifies nothing
+
+//@ func (*Scanner).read
+//@   props C03
+//@   requires clsok(s)
+//@   ensures clsok(s) && s.r == old(s.r)
+//@   ensures clrem(s) == old(clrem(s)) || (clrem(s) == old(clrem(s)) - 1 && gfield(s.r, unread) == 1)
+//@   ensures clrem(s) == old(clrem(s)) ==> result == 0 && gfield(s.r, unread) == 0
+//@   ensures old(clrem(s)) > 0 ==> clrem(s) == old(clrem(s)) - 1
+//@   modifies gfield(s.r, rem), gfield(s.r, unread)
+
+//@ func (*Scanner).unread
+//@   props C03
+//@   requires clsok(s)
+//@   ensures clsok(s) && s.r == old(s.r) && gfield(s.r, unread) == 0
+//@   ensures clrem(s) == old(clrem(s)) + (old(gfield(s.r, unread)) == 1 ? 1 : 0)
+//@   modifies gfield(s.r, rem), gfield(s.r, unread)
+
+// the whitespace and identifier scanners are entered after an unread of the rune just read: they consume at least that rune
+//@ func (*Scanner).scanWhitespace
+//@   props C03
+//@   requires clsok(s) && clrem(s) > 0
+//@   ensures clsok(s) && s.r == old(s.r) && clrem(s) < old(clrem(s)) && tok == WS
+//@   modifies gfield(s.r, rem), gfield(s.r, unread), gf(buflen), gfa(bufdata)
+//@   loop 1
+//@     invariant clsok(s) && s.r == old(s.r) && clrem(s) < old(clrem(s))
+//@     decreases clrem(s)
+
+//@ func (*Scanner).scanIdent
+//@   props C03
+//@   requires clsok(s) && clrem(s) > 0
+//@   ensures clsok(s) && s.r == old(s.r) && clrem(s) < old(clrem(s)) && (tok == IDENTIFIER || tok == CLUSTAL) && len(lit) >= 1
+//@   modifies gfield(s.r, rem), gfield(s.r, unread), gf(buflen), gfa(bufdata)
+//@   loop 1
+//@     invariant clsok(s) && s.r == old(s.r) && clrem(s) < old(clrem(s)) && gf(buflen, buf) >= 1
+//@     decreases clrem(s)
+
+// Read (unused by the Clustal parser; same code as in the Phylip lexer): at most ten runes are consumed; the result is never empty
+//@ func (*Scanner).Read
+//@   props C03
+//@   requires clsok(s)
+//@   ensures clsok(s) && s.r == old(s.r) && clrem(s) <= old(clrem(s)) && clrem(s) >= old(clrem(s)) - 10
+//@   ensures len(result) >= 1
+//@   modifies gfield(s.r, rem), gfield(s.r, unread), gf(buflen), gfa(bufdata)
+//@   loop 1
+//@     invariant clsok(s) && s.r == old(s.r) && 0 <= i && i <= 10 && clrem(s) <= old(clrem(s)) && clrem(s) >= old(clrem(s)) - i && gf(buflen, buf) >= i
+//@     decreases 10 - i
+
+// Scan: either the end-of-file token, or at least one rune has been consumed
+//@ func (*Scanner).Scan
+//@   props C03
+//@   requires clsok(s)
+//@   ensures clsok(s) && s.r == old(s.r) && clrem(s) <= old(clrem(s))
+//@   ensures tok == EOF || clrem(s) < old(clrem(s))
+//@   ensures tok == EOF || tok == WS || tok == IDENTIFIER || tok == ENDOFLINE || tok == NUMERIC || tok == ILLEGAL || tok == CLUSTAL
+//@   ensures tok == IDENTIFIER || tok == NUMERIC || tok == CLUSTAL ==> len(lit) >= 1
+//@   modifies gfield(s.r, rem), gfield(s.r, unread), gf(buflen), gfa(bufdata)
+
+// ---- parser ----
+
+// (the literal of an IDENTIFIER token kept in the push-back buffer is not empty: needed for `length >= 1`)
+//@ pure func clpok(p *Parser) bool = p != nil && clsok(p.s) && (p.buf.n == 0 || p.buf.n == 1) && (p.buf.tok == IDENTIFIER ==> len(p.buf.lit) >= 1)
+//@ pure func clM(p *Parser) int = 2 * clrem(p.s) + p.buf.n
+
+//@ func NewParser
+//@   props C03
+//@   ensures clpok(result) && fresh(result) && result.buf.n == 0 && result.ignoreidentical == align.IGNORE_NONE && result.alphabet == align.BOTH
+//@   modifies nothing
+
+// scan: the end-of-file token, or the progress measure strictly decreases; the token returned is the one kept in the push-back buffer
+//@ func (*Parser).scan
+//@   props C03
+//@   requires clpok(p)
+//@   ensures clpok(p) && p.s == old(p.s) && p.s.r == old(p.s.r) && clM(p) <= old(clM(p)) && p.buf.n == 0 && p.buf.tok == tok
+//@   ensures tok == EOF || clM(p) < old(clM(p))
+//@   ensures old(p.buf.n) != 0 ==> tok == old(p.buf.tok) && clrem(p.s) == old(clrem(p.s))
+//@   ensures old(p.buf.n) == 0 ==> tok == EOF || clrem(p.s) < old(clrem(p.s))
+//@   ensures tok == IDENTIFIER ==> len(lit) >= 1
+//@   modifies p.buf.n, p.buf.tok, p.buf.lit, gfield(p.s.r, rem), gfield(p.s.r, unread), gf(buflen), gfa(bufdata)
+
+//@ func (*Parser).unscan
+//@   props C03
+//@   requires clpok(p)
+//@   ensures clpok(p) && p.buf.n == 1 && clrem(p.s) == old(clrem(p.s)) && p.s == old(p.s) && p.s.r == old(p.s.r)
+//@   modifies p.buf.n
+
+// scanWithEOL: collapses a run of end-of-line tokens into one and pushes the first other token back.
+// It never increases the measure; it strictly decreases it unless the push-back buffer held an end-of-line token on entry
+//@ func (*Parser).scanWithEOL
+//@   props C03
+//@   requires clpok(p)
+//@   ensures clpok(p) && p.s == old(p.s) && p.s.r == old(p.s.r) && clM(p) <= old(clM(p))
+//@   ensures tok == ENDOFLINE ==> p.buf.n == 1 && p.buf.tok != ENDOFLINE
+//@   ensures tok != ENDOFLINE ==> p.buf.n == 0 && p.buf.tok == tok
+//@   ensures old(p.buf.n) == 0 || old(p.buf.tok) != ENDOFLINE ==> tok == EOF || clM(p) < old(clM(p))
+//@   modifies p.buf.n, p.buf.tok, p.buf.lit, gfield(p.s.r, rem), gfield(p.s.r, unread), gf(buflen), gfa(bufdata)
+//@   loop 1
+//@     invariant clpok(p) && p.s == old(p.s) && p.s.r == old(p.s.r) && p.buf.n == 0 && p.buf.tok == tok && prevtok == ENDOFLINE
+//@     invariant clM(p) <= old(clM(p)) - 1
+//@     invariant old(p.buf.n) == 0 ==> clM(p) <= old(clM(p)) - 2
+//@     decreases (tok == ENDOFLINE ? clM(p) + 1 : 0)
+
+// Parse: terminates; either an error or a well-formed, non-empty alignment with at least one column; the number
+// of rows is the number of rows of the first block (hint clause: names is a local of Parse).
+//@ pure func clinv(p *Parser) bool = clpok(p) && p.s == old(p.s) && p.s.r == old(p.s.r)
+//@ func (*Parser).Parse
+//@   props C03
+//@   requires clpok(p)
+//@   ensures clpok(p) && p.s == old(p.s) && p.s.r == old(p.s.r) && clM(p) <= old(clM(p))
+//@   ensures err == nil ==> al != nil && wfa(al) && nrows(al) >= 1 && al.length >= 1
+//@   hint err == nil ==> nrows(al) <= len(names) && (p.ignoreidentical == align.IGNORE_NONE ==> nrows(al) == len(names))
+//@   modifies p.buf.n, p.buf.tok, p.buf.lit, gfield(rem), gfield(unread), gf(buflen), gfa(bufdata), field(align.seqbag.seqs), field(align.align.length), mem(*align.seq), maps(map[string]*align.seq), field(align.seqbag.alphabet), field(align.seqbag.ignoreidentical)
+// 1: the rest of the title line
+//@   loop 1
+//@     invariant clinv(p) && clM(p) <= old(clM(p)) && err == nil && al == nil
+//@     invariant p.buf.n == 0 || p.buf.tok != ENDOFLINE
+//@     decreases (tok != ENDOFLINE && tok != EOF ? clM(p) + 1 : 0)
+// 2: one row (or the conservation line that ends a block, followed by the first row of the next block) per iteration
+//@   loop 2
+//@     invariant clinv(p) && clM(p) <= old(clM(p)) && err == nil && al == nil
+// (names and seqs are both []string: the two backing arrays are distinct, an append to one leaves the other unchanged)
+//@     invariant len(names) == len(seqs) && fresh(names) && fresh(seqs) && base(names) != base(seqs)
+//@     invariant 0 <= currentnbseqs && 0 <= nblocks && 0 <= nbseq
+//@     invariant nblocks == 0 ==> len(names) == currentnbseqs && nbseq == 0
+//@     invariant nblocks >= 1 ==> len(names) == nbseq && nbseq >= 1 && currentnbseqs <= nbseq
+//@     invariant forall j :: 0 <= j && j < len(seqs) ==> len(seqs[j]) >= 1
+//@     decreases clM(p)
+// 3: the rest of the conservation line ($variant2 = value of the measure at the head of loop 2)
+//@   loop 3
+//@     invariant clinv(p) && clM(p) <= old(clM(p)) && clM(p) < $variant2 && err == nil && al == nil
+//@     decreases (tok != ENDOFLINE && tok != EOF ? clM(p) + 1 : 0)
+// 4: the rows are handed to the alignment (created at the first row)
+//@   loop 4
+//@     invariant clinv(p) && clM(p) <= old(clM(p))
+//@     invariant len(names) == len(seqs) && len(names) >= 1
+//@     invariant forall j :: 0 <= j && j < len(seqs) ==> len(seqs[j]) >= 1
+//@     invariant $i == 0 ==> al == nil
+//@     invariant $i >= 1 ==> al != nil && fresh(al) && isalign(al) && wfa(al) && nrows(al) >= 1 && nrows(al) <= $i && al.length >= 1
+//@     invariant $i >= 1 && p.ignoreidentical == align.IGNORE_NONE ==> al.ignoreidentical == align.IGNORE_NONE && nrows(al) == $i
+//@     decreases len(names) - $i
